@@ -78,6 +78,9 @@ pub struct SrvCase {
     pub placeholder0: bool,
     /// start_server() is never called (only meaningful for C18: the kill switch must still work)
     pub skip_start: bool,
+    /// the process already holds many descriptors: numbers start at 300 (1) or 70000 (2)
+    /// (nothing may assume that a descriptor number fits 8 or 16 bits)
+    pub fd_high: u8,
 }
 
 impl SStep {
@@ -159,6 +162,7 @@ impl SrvCase {
             ("kill_twice", J::Bool(self.kill_twice)),
             ("placeholder0", J::Bool(self.placeholder0)),
             ("skip_start", J::Bool(self.skip_start)),
+            ("fd_high", json::u(self.fd_high as usize)),
         ])
     }
     pub fn from_json(j: &J) -> Result<SrvCase, String> {
@@ -187,6 +191,7 @@ impl SrvCase {
             kill_twice: j.get("kill_twice").and_then(|x| x.bool()).unwrap_or(false),
             placeholder0: j.get("placeholder0").and_then(|x| x.bool()).unwrap_or(false),
             skip_start: j.get("skip_start").and_then(|x| x.bool()).unwrap_or(false),
+            fd_high: j.get("fd_high").and_then(|x| x.usize()).unwrap_or(0) as u8,
         })
     }
 }
@@ -407,7 +412,15 @@ impl ServerSim {
             cap_s2c: case.cap_s2c.max(FULL_MSG.len() + 8),
             out_threshold: if case.quarter { OutThreshold::Quarter } else { OutThreshold::AnySpace },
             log: true,
-            first_fd: if case.fds_from_zero { 0 } else { 3 },
+            first_fd: if case.fds_from_zero {
+                0
+            } else {
+                match case.fd_high {
+                    1 => 300,
+                    2 => 70_000,
+                    _ => 3,
+                }
+            },
         });
         let prop = flags.prop;
         let built = catch_unwind(AssertUnwindSafe(|| -> Result<(HttpServer, Option<EventFd>, Option<EventFd>), String> {
